@@ -93,7 +93,7 @@ WriteDoc(blocks) == FlattenSeq([b \in 1..Len(blocks) |-> WriteBlock(blocks[b])])
 (* Comparison of the supplied document (cells) with a parsed one (code points).        *)
 Missing == {<<>>, <<63>>, <<46>>}
 CellOK(c, tok) ==
-    CASE c.t = "s" -> Strip(tok) = Strip(c.s)
+    CASE c.t = "s" -> Strip(tok) = Strip(NormalizeBreaks(c.s))
       [] c.t = "n" -> c.ok /\ tok = c.s
       [] c.t = "x" -> c.ok
       [] c.t = "m" -> Strip(tok) \in Missing
@@ -163,7 +163,7 @@ DocVerdict(exp, rd) ==
 (* an exception is an accepted outcome (DESIGN 3.4)                                     *)
 HasUnrepresentable(exp) ==
     \E b \in 1..Len(exp) : \E j \in 1..Len(exp[b].items) : \E c \in 1..Len(exp[b].items[j].vals) :
-        LET cell == exp[b].items[j].vals[c] IN cell.t \in {"s", "x"} /\ HasLfSemi(cell.s)
+        LET cell == exp[b].items[j].vals[c] IN cell.t \in {"s", "x"} /\ HasLfSemi(NormalizeBreaks(cell.s))
 
 -----------------------------------------------------------------------------
 (* Content assembled by the high-level builder (module docstring of io/cif.py):         *)
